@@ -24,6 +24,10 @@ func main() {
 	case "replay":
 		os.Exit(cmdReplay(os.Args[2:]))
 	default:
+		if f, ok := extraCmds[os.Args[1]]; ok {
+			f(os.Args[2:])
+			return
+		}
 		fmt.Fprintln(os.Stderr, "unknown command", os.Args[1])
 		os.Exit(2)
 	}
@@ -135,3 +139,7 @@ func cmdVC(args []string) {
 }
 
 func runGoReplay(section string) int { return 0 }
+
+func init() { extraCmds["mapranges"] = cmdMapRanges }
+
+var extraCmds = map[string]func([]string){}
